@@ -62,10 +62,32 @@ type SchedObs struct {
 	TimedOut  bool         `json:"timed_out"`
 	Stderr    string       `json:"stderr,omitempty"`
 	LateLines []string     `json:"late_lines,omitempty"` // action-log lines that appeared after plz had exited
+	BoundMs   int64        `json:"bound_ms"`             // the wall-clock bound that applied to this invocation
 }
 
-// SchedBound is the wall-clock bound of the oracle for one invocation (cycles cost the 5 s timer).
+// SchedBound is the wall-clock bound of the oracle for one invocation on an idle machine (cycles cost the 5 s timer).
+// On a loaded machine the bound is scaled by a calibration run: 8 s + 40 x the time of a one-target build (see Calibrate).
 const SchedBound = 20 * time.Second
+
+// Calibrate measures how long the real plz needs for a one-target repository right now (median of three runs) and returns
+// the bound to apply to the generated invocations.
+func Calibrate(base string) (time.Duration, time.Duration) {
+	c := &SchedCase{Kind: "calibration", Targets: []*SchedTarget{{Pkg: "p0", Name: "t00"}}, Requested: []string{"//p0:t00"}, Threads: 1}
+	var ws []time.Duration
+	for i := 0; i < 3; i++ {
+		dir := fmt.Sprintf("%s/cal%d", base, i)
+		os.MkdirAll(dir, 0o755)
+		o := c.RunSched(dir, 120*time.Second)
+		os.RemoveAll(dir)
+		ws = append(ws, time.Duration(o.WallMs)*time.Millisecond)
+	}
+	sort.Slice(ws, func(i, j int) bool { return ws[i] < ws[j] })
+	bound := 8*time.Second + 40*ws[1]
+	if bound < SchedBound {
+		bound = SchedBound
+	}
+	return ws[1], bound
+}
 
 func (c *SchedCase) target(label string) *SchedTarget {
 	for _, t := range c.Targets {
@@ -169,7 +191,7 @@ func readSchedTrace(path string) ([]SchedEvent, bool) {
 }
 
 // RunSched runs the case with the real plz in a fresh repository under base.
-func (c *SchedCase) RunSched(base string) SchedObs {
+func (c *SchedCase) RunSched(base string, bound time.Duration) SchedObs {
 	r := NewRepo(base, "repo")
 	r.CacheDir = filepath.Join(base, "cache")
 	r.Threads = c.Threads
@@ -181,17 +203,17 @@ func (c *SchedCase) RunSched(base string) SchedObs {
 	}
 	args = append(args, c.Requested...)
 	if c.Second == "rebuild" {
-		r.Run(SchedBound+10*time.Second, args...)
+		r.Run(bound+10*time.Second, args...)
 		os.Remove(tracePath)
 	}
-	kill := SchedBound + 5*time.Second
+	kill := bound + 5*time.Second
 	if v := os.Getenv("VERIF_SCHED_KILL_S"); v != "" {
 		if n, err := time.ParseDuration(v + "s"); err == nil {
 			kill = n
 		}
 	}
 	res := r.Run(kill, args...)
-	obs := SchedObs{Log: res.Executed, Exit: res.Exit, WallMs: res.Wall.Milliseconds(), TimedOut: res.TimedOut}
+	obs := SchedObs{Log: res.Executed, Exit: res.Exit, WallMs: res.Wall.Milliseconds(), TimedOut: res.TimedOut, BoundMs: bound.Milliseconds()}
 	obs.Events, obs.TraceOK = readSchedTrace(tracePath)
 	if res.Exit != 0 {
 		obs.Stderr = res.Stderr
@@ -679,11 +701,11 @@ func SchedOracle(c *SchedCase, obs *SchedObs) []SchedFinding {
 		add("C05", "command-outlives-plz", "the action log grew after plz had exited: %v", obs.LateLines)
 	}
 	// --- termination
-	if obs.TimedOut || obs.WallMs > SchedBound.Milliseconds() {
+	if obs.TimedOut || obs.WallMs > obs.BoundMs {
 		if c.KeepGoing && hasCmdFail && hasCycle {
-			add("C05", "keep-going-failure-disables-cycle-check", "with --keep_going, a failed command and a dependency cycle plz did not terminate within %v", SchedBound)
+			add("C05", "keep-going-failure-disables-cycle-check", "with --keep_going, a failed command and a dependency cycle plz did not terminate within %d ms", obs.BoundMs)
 		} else {
-			add("C05", "build-did-not-terminate", "plz did not terminate within %v (wall %d ms, killed=%v)", SchedBound, obs.WallMs, obs.TimedOut)
+			add("C05", "build-did-not-terminate", "plz did not terminate within %d ms (wall %d ms, killed=%v)", obs.BoundMs, obs.WallMs, obs.TimedOut)
 		}
 		return out
 	}
@@ -749,7 +771,7 @@ func SchedOracle(c *SchedCase, obs *SchedObs) []SchedFinding {
 }
 
 // RunScheds runs the cases `workers` at a time, each in its own scratch directory under base.
-func RunScheds(base string, cases []*SchedCase, workers int) []SchedObs {
+func RunScheds(base string, cases []*SchedCase, workers int, bound time.Duration) []SchedObs {
 	out := make([]SchedObs, len(cases))
 	var wg sync.WaitGroup
 	sem := make(chan struct{}, workers)
@@ -761,7 +783,7 @@ func RunScheds(base string, cases []*SchedCase, workers int) []SchedObs {
 			defer func() { <-sem }()
 			dir := fmt.Sprintf("%s/s%d", base, i)
 			os.MkdirAll(dir, 0o755)
-			out[i] = cases[i].RunSched(dir)
+			out[i] = cases[i].RunSched(dir, bound)
 			os.RemoveAll(dir)
 		}(i)
 	}
@@ -794,17 +816,17 @@ func RunSchedProperty(c *lib.Ctx, prop string) {
 			thor   int
 			second string
 		}{
-			{"none", 22, 400, ""}, {"none", 4, 60, "rebuild"}, {"fail", 22, 400, ""}, {"wide", 16, 400, ""},
+			{"none", 18, 400, ""}, {"none", 3, 60, "rebuild"}, {"fail", 16, 400, ""}, {"wide", 12, 400, ""},
 			{"syntax", 5, 80, ""}, {"runtime", 5, 80, ""}, {"undefined", 6, 80, ""}, {"missingpkg", 5, 80, ""},
 			{"cycle1", 1, 6, ""}, {"cycle2", 1, 6, ""}, {"cycle3", 1, 6, ""}, {"hang", 1, 2, ""},
 		}
 		if prop == "C04" { // C04 concentrates on successful and partially failing builds, C05 on failures
-			plan[0].quick, plan[2].quick, plan[3].quick = 34, 22, 16
+			plan[0].quick, plan[2].quick, plan[3].quick = 26, 16, 12
 			plan[4].quick, plan[5].quick, plan[6].quick, plan[7].quick = 2, 2, 3, 2
 			plan[8].quick, plan[9].quick, plan[10].quick, plan[11].quick = 0, 1, 0, 0
 			plan[11].thor = 0
 		} else {
-			plan[0].quick, plan[3].quick = 8, 24
+			plan[0].quick, plan[3].quick = 6, 16
 		}
 		for _, p := range plan {
 			for i := 0; i < c.Scale(p.quick, p.thor); i++ {
@@ -817,7 +839,9 @@ func RunSchedProperty(c *lib.Ctx, prop string) {
 		slow := func(k string) bool { return strings.HasPrefix(k, "cycle") || k == "hang" }
 		return slow(cases[i].Kind) && !slow(cases[j].Kind)
 	})
-	obs := RunScheds(base, cases, c.Scale(10, 12))
+	ref, bound := Calibrate(base)
+	c.Note("calibration: a one-target build takes %v now; wall-clock bound per invocation %v", ref, bound)
+	obs := RunScheds(base, cases, c.Scale(8, 10), bound)
 	for i, sc := range cases {
 		o := &obs[i]
 		js := map[string]any{"kind": sc.Kind, "shape": sc.Shape, "targets": sc.Targets, "broken": sc.Broken, "requested": sc.Requested,
